@@ -881,9 +881,11 @@ def _refresh_elementwise_output_shape(node: ir.Node) -> None:
     for iv in ins:
         if iv is None:
             continue
-        if _is_scalar_const_value(iv):
-            continue
         dims = _shape_dims_seq(iv.shape)
+        if _is_scalar_const_value(iv) and not dims:
+            # A rank-0 constant never changes the broadcast result; a
+            # single-element constant of higher rank still contributes its rank.
+            continue
         if dims is None:
             continue
         candidate_shapes.append(dims)
